@@ -16,7 +16,7 @@
     has them (their own properties are C03/C09).  This file does not depend on
     how the model tests flags: the queries below are stated on their own. *)
 From Coq Require Import String Ascii List Bool Arith ZArith.
-From Raven Require Import Base.GoStr Model.Flags Model.FlagStore.
+From Raven Require Import Base.GoStr Model.Flags Spec.FlagSet Model.FlagStore.
 Import ListNotations.
 Local Open Scope Z_scope.
 
@@ -84,17 +84,17 @@ Fixpoint uniq_keys_b (ls : list link) : bool :=
   | l :: ls' => negb (existsb (has_key (lk_mbox l) (lk_uid l)) ls') && uniq_keys_b ls'
   end.
 
-(** ---- (b): queries as set membership ---- *)
+(** ---- (b): queries as membership of the flag's key in the set of keys ---- *)
+Definition has_key_of (q : str) (fl : list str) : bool := mem (fkey q) (keys fl).
 Definition spec_key_holds (k : skey) (fl : list str) : bool :=
   match k with
-  | KHas q => mem q fl
-  | KNot q => negb (mem q fl)
-  | KNew => mem RECENT fl && negb (mem SEEN fl)
+  | KHas q => has_key_of q fl
+  | KNot q => negb (has_key_of q fl)
+  | KNew => has_key_of RECENT fl && negb (has_key_of SEEN fl)
   end.
 Definition spec_search (ls : list link) (mb : Z) (k : skey) : list Z :=
   positions (fun l => spec_key_holds k (lk_flags l)) 1 (mbox_links ls mb).
 Definition spec_unseen_count (ls : list link) (mb : Z) : Z :=
-  Z.of_nat (length (filter (fun l => negb (mem SEEN (lk_flags l))) (filter (in_mbox mb) ls))).
+  Z.of_nat (length (filter (fun l => negb (has_key_of SEEN (lk_flags l))) (filter (in_mbox mb) ls))).
 Definition spec_first_unseen (ls : list link) (mb : Z) : option Z :=
-  hd_error (positions (fun l => negb (mem SEEN (lk_flags l))) 1 (mbox_links ls mb)).
-
+  hd_error (positions (fun l => negb (has_key_of SEEN (lk_flags l))) 1 (mbox_links ls mb)).
